@@ -189,7 +189,7 @@ def check_misc(_):
 
 
 SNIPS = [('1', 1), ('{3;4}', [3, 4]), ('{3,4}', [3, 4]), ('{5}', [5]), ('"t"', 't'), ('F(7;8)', [7, 8]), ('{1,2;3,4}', [[1, 2], [3, 4]]), ('x', 5),
-         ('F({1,2},9)', [[1, 2], 9]), ('{1\\2}', [1, 2])]
+         ('F({1,2},9)', [[1, 2], 9]), ('{1\\2}', [1, 2]), ('","', ','), ('";"', ';'), ("';'", ';'), ('", "', ', ')]
 
 
 def slotval_formulas(idx):
